@@ -228,8 +228,9 @@ spif_str_init_from_fp(spif_str_t self, FILE *fp)
     self->s = (spif_charptr_t) MALLOC(self->size);
     *(self->s) = 0;
 
-    for (p = self->s; fgets((char *)p, buff_inc, fp); p += buff_inc) {
+    for (p = self->s; fgets((char *)p, buff_inc, fp); p = self->s + self->len) {
         if (!(end = (spif_charptr_t)strchr((const char *)p, '\n'))) {
+            self->len = (spif_stridx_t) (p - self->s) + strlen((const char *)p);
             self->size += buff_inc;
             self->s = (spif_charptr_t) REALLOC(self->s, self->size);
         } else {
